@@ -7,14 +7,15 @@ INC = ['<glm/glm.hpp>', '<glm/integer.hpp>', '<glm/ext/scalar_integer.hpp>', '<g
        '<glm/gtc/round.hpp>', '<glm/gtc/bitfield.hpp>', '<glm/gtc/integer.hpp>', '<glm/gtx/integer.hpp>', '<glm/gtx/bit.hpp>']
 DEF = ['GLM_ENABLE_EXPERIMENTAL']
 d_p2 = P.driver('c18_pow2', INC)     # power-of-two family, highest/lowestBitValue, log2, factorial
-d_mu = P.driver('c18_mult', INC)     # multiples (integer and float)
+d_mu = P.driver('c18_mult', INC)     # multiples
 d_bf = P.driver('c18_bits', INC)     # findNSB, mask, fill, rotate, interleave
 d_gx = P.driver('c18_gtx', INC)      # gtx_integer pow sqrt mod nlz
-B = {}
 # signed 32/64-bit multiples: the source negates / increments Source in its own type, which overflows at the ends of the
-# range (undefined behaviour, the subject of C20).  clang and g++ resolve it differently, which the T-check rejects; this
-# driver is therefore compiled with -fwrapv (two's complement wrapping, the framework's default reading of overflow).
+# range (undefined behaviour, the subject of C20).  clang and g++ resolve it differently (clang folds `Source + -Source % M`
+# into `Source - Source % M`), which the T-check rejects; this driver is therefore compiled with -fwrapv by every compiler
+# involved (two's complement wrapping, the framework's default reading of overflow).
 d_mw = P.driver('c18_mult_wrapv', INC)
+B = {}
 for d in (d_p2, d_mu, d_bf, d_gx):
     B[d.name] = P.build(d, 'flat', defines=DEF)
 B[d_mw.name] = P.build(d_mw, 'flat', defines=DEF, flags=['-fwrapv'])
@@ -23,19 +24,18 @@ F_EXT, F_EXTV = 'glm/ext/scalar_integer.inl', 'glm/ext/vector_integer.inl'
 F_RND, F_BF, F_GI, F_XI, F_XB = 'glm/gtc/round.inl', 'glm/gtc/bitfield.inl', 'glm/gtc/integer.inl', 'glm/gtx/integer.inl', 'glm/gtx/bit.inl'
 
 # ------------------------------------------------------------------------------------------------
-# instantiation table.  Every function is taken at every integer element type it accepts (all compile) in scalar
+# instantiation table.  Every function is taken at every integer element type it accepts (all of them compile) in scalar
 # form and as vec4; the 32-bit types additionally as vec1..3.
-TAGS = list(INT_TYPES)
 NARROW = ('i8', 'u8', 'i16', 'u16')
 
 
-def shapes(tag, vec=True, no1=False):
-    s = [0]
-    if vec:
-        s += [4] + ([1, 2, 3] if tag in ('i32', 'u32') else [])
-    if no1:
-        s = [x for x in s if x != 1]
-    return s
+def shapes(tag):
+    return [0, 4] + ([1, 2, 3] if tag in ('i32', 'u32') else [])
+
+
+def base_tier(tag, L):
+    """per-change tier: every type in scalar form, the 32-bit types also as vec4"""
+    return 'quick' if L == 0 or (L == 4 and tag in ('i32', 'u32')) else 'thorough'
 
 
 def sfx(tag, L):
@@ -55,31 +55,33 @@ def pv(tag, e):
     return '(u64)(s64)(%s)%s' % (S(tag), e) if INT_TYPES[tag][2] else '(u64)%s' % e
 
 
+def mwidth(tag):
+    """arithmetic used by the multiple specs: (suffix of the spec family, C type)"""
+    n = INT_TYPES[tag][1]
+    return ('_n', 's32') if n <= 16 else (('', 's64') if n == 32 else ('_w', 's128'))
+
+
 def mv(tag, e):
-    """mathematical value as s64 (types up to 32 bit) or s128 (64-bit types)"""
-    W = 's128' if INT_TYPES[tag][1] == 64 else 's64'
+    """mathematical value in the arithmetic of the multiple specs"""
+    W = mwidth(tag)[1]
     return '(%s)(%s)%s' % (W, S(tag), e) if INT_TYPES[tag][2] else '(%s)%s' % (W, e)
 
 
 def tmax(tag):
     cpp, n, sg = INT_TYPES[tag]
     v = (1 << (n - sg)) - 1
-    return '((s128)0x%xull)' % v if n == 64 else '0x%xll' % v
+    return '((s128)0x%xull)' % v if n == 64 else ('0x%xll' % v if n == 32 else '0x%x' % v)
 
 
 def tmin(tag):
     cpp, n, sg = INT_TYPES[tag]
     if not sg:
-        return '((s128)0)' if n == 64 else '0ll'
-    return '(-(s128)0x7fffffffffffffffll - 1)' if n == 64 else '(-0x%xll - 1)' % ((1 << (n - 1)) - 1)
+        return '((s128)0)' if n == 64 else '0'
+    return '(-(s128)0x7fffffffffffffffll - 1)' if n == 64 else ('(-0x%xll - 1)' if n == 32 else '(-0x%x - 1)') % ((1 << (n - 1)) - 1)
 
 
 def positive(tag, e):
     return '(%s)%s > 0' % (S(tag), e) if INT_TYPES[tag][2] else '%s != 0' % e
-
-
-def comps(L, name):
-    return [name] if L == 0 else ['%s%d' % (name, i) for i in range(L)]
 
 
 def results(L):
@@ -91,10 +93,11 @@ def cn(name, L, i):
 
 
 def gen(d, fname, file, tag, L, args, rt, req, ens, label=None, **kw):
-    """one shim + one contract.  args: [(kind, name)] kind 'T' (element type, a vector in vector form), 'Ts' (element
-    type, always scalar), 'I' (int, scalar), 'IV' (int, vec<L,int> in vector form).
-    req/ens: [(name, fn(c) -> expr)] evaluated per component; c maps argument names to the component's C expression,
-    c['R'] is the result component."""
+    """one shim + one contract.  args: [(kind, name)]; kind 'T' (element type; a vector in vector form), 'Ts' (element
+    type, always scalar), 'T8' (element type passed through an 8-bit shim parameter, see P.assumptions), 'I' (int,
+    scalar), 'IV' (int; vec<L,int> in vector form).
+    req/ens: [(name, fn(c) -> expr or None)], evaluated per component; c maps argument names to the component's C
+    expression, c['R'] is the result component."""
     cpp, n, sg = INT_TYPES[tag]
     name = 'glm_%s_%s' % (label or fname, sfx(tag, L))
     ins, call_args = [], []
@@ -102,7 +105,7 @@ def gen(d, fname, file, tag, L, args, rt, req, ens, label=None, **kw):
         if kind == 'T' and L:
             ins += vec_ins(L, tag, a)
             call_args.append(vec_make(L, tag, a))
-        elif kind == 'T8':   # element-typed argument passed through an 8-bit shim parameter (bounds the loops it controls)
+        elif kind == 'T8':
             t8 = 'i8' if sg else 'u8'
             if L:
                 ins += vec_ins(L, t8, a)
@@ -122,28 +125,29 @@ def gen(d, fname, file, tag, L, args, rt, req, ens, label=None, **kw):
         d.shim(name, rtype, ins, 'return %s;' % fcall)
     else:
         d.shim(name, 'void', ins, 'auto r = %s; %s' % (fcall, vec_store(L, 'r')), outs=[(rtype, 'out', L)])
-    N = max(L, 1)
     R, E = [], []
-    for i in range(N):
+    for i in range(max(L, 1)):
         c = {'R': results(L)[i]}
         for kind, a in args:
-            vecform = L and kind in ('T', 'IV', 'T8')
-            c[a] = '%s%d' % (a, i) if vecform else a
+            c[a] = '%s%d' % (a, i) if (L and kind in ('T', 'IV', 'T8')) else a
         for rn, f in req:
             e = f(c)
             if e and all(e != e2 for _, e2 in R):
                 R.append((cn(rn, L, i), e))
         for en, f in ens:
-            E.append((cn(en, L, i), f(c)))
+            e = f(c)
+            if e:
+                E.append((cn(en, L, i), e))
     real = 'glm::%s%s  %s' % (fname, '<%s>' % cpp if L == 0 else '(vec<%d,%s>)' % (L, cpp), file)
     kw.setdefault('unwind', 67)
     kw.setdefault('build', B[d.name])
+    kw.setdefault('tier', base_tier(tag, L))
     P.contract(name, real, requires=R, ensures=E, **kw)
 
 
 # ------------------------------------------------------------------------------------------------
-# power-of-two family.  Domain: x > 0 (value at 0 is a convention; for negative x GLM applies a sign-magnitude convention
-# that the statement does not describe - see P.not_covered) and the answer representable in the type.
+# power-of-two family.  Domain: x > 0 (the value at 0 is a convention; negative x: see P.not_covered) and the answer
+# representable in the type.  vb = number of value bits.
 for tag, (cpp, n, sg) in INT_TYPES.items():
     vb = n - sg
     pos = ('x_positive', lambda c: positive(tag, c['x']))
@@ -156,16 +160,18 @@ for tag, (cpp, n, sg) in INT_TYPES.items():
                lambda c: '%sspec_is_nearest_pow2(%s, %s)' % ('(%s)%s > 0 && ' % (S(tag), c['R']) if sg else '', pv(tag, c['R']), pv(tag, c['x'])))]
     for L in shapes(tag):
         a = [('T', 'x')]
-        gen(d_p2, 'isPowerOfTwo', F_EXTV if L else F_EXT, tag, L, a, 'bool', [pos], e_is)
-        gen(d_p2, 'nextPowerOfTwo', F_EXTV if L else F_EXT, tag, L, a, 'T', [pos, ceil_fits], e_ceil)
-        gen(d_p2, 'prevPowerOfTwo', F_EXTV if L else F_EXT, tag, L, a, 'T', [pos], e_floor)
+        fx = F_EXTV if L else F_EXT
+        near_kw = dict(tier='thorough') if (n == 64 and L) else {}
+        gen(d_p2, 'isPowerOfTwo', fx, tag, L, a, 'bool', [pos], e_is)
+        gen(d_p2, 'nextPowerOfTwo', fx, tag, L, a, 'T', [pos, ceil_fits], e_ceil)
+        gen(d_p2, 'prevPowerOfTwo', fx, tag, L, a, 'T', [pos], e_floor)
         gen(d_p2, 'ceilPowerOfTwo', F_RND, tag, L, a, 'T', [pos, ceil_fits], e_ceil)
         gen(d_p2, 'floorPowerOfTwo', F_RND, tag, L, a, 'T', [pos], e_floor)
-        gen(d_p2, 'roundPowerOfTwo', F_RND, tag, L, a, 'T', [pos, near_fits], e_near)
+        gen(d_p2, 'roundPowerOfTwo', F_RND, tag, L, a, 'T', [pos, near_fits], e_near, **near_kw)
         gen(d_p2, 'powerOfTwoAbove', F_XB, tag, L, a, 'T', [pos, ceil_fits], e_ceil)
         gen(d_p2, 'powerOfTwoBelow', F_XB, tag, L, a, 'T', [pos], e_floor)
-        gen(d_p2, 'powerOfTwoNearest', F_XB, tag, L, a, 'T', [pos, near_fits], e_near)
-        # highest / lowest set bit: a statement about the bit pattern, so negative values are in scope
+        gen(d_p2, 'powerOfTwoNearest', F_XB, tag, L, a, 'T', [pos, near_fits], e_near, **near_kw)
+        # highest / lowest set bit: statements about the bit pattern, so negative values are in scope
         nz = ('x_nonzero', lambda c: '%s != 0' % c['x'])
         gen(d_p2, 'highestBitValue', F_XB, tag, L, a, 'T', [nz],
             [('value_of_highest_set_bit', lambda c: '%s == (%s)(1ull << spec_msb_index((u64)%s, %d))' % (c['R'], U(tag), c['x'], n))])
@@ -179,12 +185,13 @@ for tag, (cpp, n, sg) in INT_TYPES.items():
                 [('x_in_documented_range_0_12', lambda c: '%s%s <= 12' % ('(s8)%s >= 0 && ' % c['x'] if sg else '', pv(t8, c['x']))),
                  ('result_representable', lambda c: 'spec_factorial(%s) <= 0x%xull' % (pv(t8, c['x']), (1 << vb) - 1))],
                 [('factorial_exact', lambda c: '%s == spec_factorial(%s)' % (pv(tag, c['R']), pv(t8, c['x'])))],
-                bounded='x <= 12', unwind=22)
+                bounded='x <= 12', unwind=22, timeout=600, tier='quick' if (L == 0 and n == 32) else 'thorough')
 
 # ------------------------------------------------------------------------------------------------
-# multiples.  Domain: m > 0 and the answer representable.  8/16-bit: complete on SAT; 32/64-bit: SMT, thorough tier.
+# multiples.  Domain: m > 0 and the answer representable.  8-bit: SAT, per-change tier; 16-bit: SAT, several minutes per
+# obligation, thorough tier; 32/64-bit: SMT, thorough tier.
 for tag, (cpp, n, sg) in INT_TYPES.items():
-    w = '_w' if n == 64 else ''
+    w = mwidth(tag)[0]
     mpos = ('multiple_positive', lambda c: '%s > 0' % mv(tag, c['m']))
     cfit = ('result_representable', lambda c: 'spec_ceil_multiple_fits%s(%s, %s, %s)' % (w, mv(tag, c['x']), mv(tag, c['m']), tmax(tag)))
     ffit = ('result_representable', lambda c: 'spec_floor_multiple_fits%s(%s, %s, %s)' % (w, mv(tag, c['x']), mv(tag, c['m']), tmin(tag)) if sg else None)
@@ -194,12 +201,14 @@ for tag, (cpp, n, sg) in INT_TYPES.items():
     e_ceil = [('smallest_multiple_not_below_x', lambda c: 'spec_is_ceil_multiple%s(%s, %s, %s)' % (w, mv(tag, c['R']), mv(tag, c['x']), mv(tag, c['m'])))]
     e_floor = [('largest_multiple_not_above_x', lambda c: 'spec_is_floor_multiple%s(%s, %s, %s)' % (w, mv(tag, c['R']), mv(tag, c['x']), mv(tag, c['m'])))]
     e_near = [('nearest_multiple_either_on_tie', lambda c: 'spec_is_nearest_multiple%s(%s, %s, %s)' % (w, mv(tag, c['R']), mv(tag, c['x']), mv(tag, c['m'])))]
-    if tag in NARROW:
-        kw = dict(backends=('sat',), timeout=300)
-    else:
-        kw = dict(backends=('z3', 'cvc5'), timeout=120, tier='thorough')
     dm = d_mw if tag in ('i32', 'i64') else d_mu
     for L in shapes(tag):
+        if n == 8:
+            kw = dict(backends=('sat',), timeout=300, tier='quick' if L == 0 else 'thorough')
+        elif n == 16:
+            kw = dict(backends=('sat',), timeout=3600, tier='thorough')
+        else:
+            kw = dict(backends=('z3', 'cvc5'), timeout=120, tier='thorough')
         vv = [('T', 'x'), ('T', 'm')]
         fx = F_EXTV if L else F_EXT
         forms = [(None, vv)] + ([('_scalarMultiple', [('T', 'x'), ('Ts', 'm')])] if L else [])   # ext: vector source, scalar multiple
@@ -212,55 +221,41 @@ for tag, (cpp, n, sg) in INT_TYPES.items():
         gen(dm, 'floorMultiple', F_RND, tag, L, vv, 'T', [mpos, ffit], e_floor, **kw)
         gen(dm, 'roundMultiple', F_RND, tag, L, vv, 'T', [mpos, nfit], e_near, **kw)
 
-# float overloads of gtc/round: claimed only what survives rounding of the arithmetic - x itself when x already is a
-# multiple (fmod(x, m) == 0), the named direction, and a distance of at most one multiple.
-for ftag, (fcpp, fbits) in FLOAT_TYPES.items():
-    fin = 'spec_isfinite%d' % fbits
-    fmod_ = 'fmodf' if fbits == 32 else 'fmod'
-    for L in (0, 4):
-        name = lambda f: 'glm_%s_%s_%s' % (f, ftag, 's' if L == 0 else 'v%d' % L)
-        N = max(L, 1)
-        xs, ms, rs = comps(L, 'x'), comps(L, 'm'), results(L)
-        ins = [(fcpp, v) for v in xs] + [(fcpp, v) for v in ms]
-        mk = lambda nm: nm if L == 0 else 'glm::vec<%d, %s>(%s)' % (L, fcpp, ', '.join(comps(L, nm)))
-        req = []
-        for i in range(N):
-            req.append((cn('finite_positive_multiple', L, i), '%s(%s) && %s(%s) && %s > 0' % (fin, xs[i], fin, ms[i], ms[i])))
-        for f, direction in (('ceilMultiple', '%s >= %s'), ('floorMultiple', '%s <= %s'), ('roundMultiple', None)):
-            if L == 0:
-                d_mu.shim(name(f), fcpp, ins, 'return glm::%s(x, m);' % f)
-            else:
-                d_mu.shim(name(f), 'void', ins, 'auto r = glm::%s(%s, %s); %s' % (f, mk('x'), mk('m'), vec_store(L, 'r')), outs=[(fcpp, 'out', L)])
-            ens = []
-            for i in range(N):
-                x, m, r = xs[i], ms[i], rs[i]
-                ens.append((cn('x_itself_when_already_a_multiple', L, i), '!(%s(%s, %s) == 0) || %s == %s' % (fmod_, x, m, r, x)))
-                if direction:
-                    ens.append((cn('named_direction', L, i), direction % (r, x)))
-                ens.append((cn('within_one_multiple', L, i), 'spec_fabs%d(%s - %s) <= %s' % (fbits, r, x, m)))
-            P.contract(name(f), 'glm::%s%s  %s' % (f, '<%s>' % fcpp if L == 0 else '(vec<%d,%s>)' % (L, fcpp), F_RND), requires=req, ensures=ens,
-                       build=B[d_mu.name], unwind=4, backends=('sat',), timeout=300, tier='thorough' if (L or fbits == 64) else 'quick')
-
 # ------------------------------------------------------------------------------------------------
 # bit utilities
 for tag, (cpp, n, sg) in INT_TYPES.items():
     for L in shapes(tag):
         gen(d_bf, 'findNSB', F_EXTV if L else F_EXT, tag, L, [('T', 'x'), ('IV', 'k')], 'int',
             [('count_at_least_1', lambda c: '(s32)%s >= 1' % c['k'])],
-            [('position_of_kth_set_bit_or_minus_1', lambda c: '(s32)%s == spec_nth_set_bit((u64)%s, %d, (s32)%s)' % (c['R'], c['x'], n, c['k']))])
+            [('position_of_kth_set_bit_or_minus_1', lambda c: '(s32)%s == spec_nth_set_bit((u64)%s, %d, (s32)%s)' % (c['R'], c['x'], n, c['k']))],
+            timeout=900, tier='quick' if (L == 0 and n <= 16) else 'thorough')
         gen(d_bf, 'mask', F_BF, tag, L, [('T', 'b')], 'T',
             [('count_within_width', lambda c: ('(%s)%s >= 0 && ' % (S(tag), c['b']) if sg else '') + '%s <= %d' % (c['b'], n))],
             [('low_b_bits_set', lambda c: '%s == (%s)spec_ones(0, %s)' % (c['R'], U(tag), c['b']))])
-        rdom = [('shift_within_width', lambda c: '(s32)s >= 0 && (s32)s < %d' % n)]
+        # rotate by s, 0 <= s < width.  For the 32/64-bit types s == 0 makes the code shift by the full width (undefined
+        # behaviour, C20); the extracted code is then nondeterministic while x86 returns x, so s == 0 is not claimed there.
+        s_lo = 0 if n <= 16 else 1
+        rdom = [('shift_within_width', lambda c: '(s32)s >= %d && (s32)s < %d' % (s_lo, n))]
+        rkw = dict(tier='thorough') if (n == 64 and L) else {}
         gen(d_bf, 'bitfieldRotateLeft', F_BF, tag, L, [('T', 'x'), ('I', 's')], 'T', rdom,
-            [('rotated_left_by_s', lambda c: '%s == (%s)spec_rotl((u64)%s, s, %d)' % (c['R'], U(tag), c['x'], n))])
+            [('rotated_left_by_s', lambda c: '%s == (%s)spec_rotl((u64)%s, s, %d)' % (c['R'], U(tag), c['x'], n))], **rkw)
         gen(d_bf, 'bitfieldRotateRight', F_BF, tag, L, [('T', 'x'), ('I', 's')], 'T', rdom,
-            [('rotated_right_by_s', lambda c: '%s == (%s)spec_rotr((u64)%s, s, %d)' % (c['R'], U(tag), c['x'], n))])
-        fdom = [('range_within_width', lambda c: '(s32)first >= 0 && (s32)count >= 0 && (s32)first <= %d && (s32)count <= %d && (s32)first + (s32)count <= %d' % (n, n, n))]
-        gen(d_bf, 'bitfieldFillOne', F_BF, tag, L, [('T', 'x'), ('I', 'first'), ('I', 'count')], 'T', fdom,
-            [('range_set_rest_kept', lambda c: '%s == (%s)((u64)%s | spec_ones(first, count))' % (c['R'], U(tag), c['x']))])
-        gen(d_bf, 'bitfieldFillZero', F_BF, tag, L, [('T', 'x'), ('I', 'first'), ('I', 'count')], 'T', fdom,
-            [('range_cleared_rest_kept', lambda c: '%s == (%s)((u64)%s & ~spec_ones(first, count))' % (c['R'], U(tag), c['x']))])
+            [('rotated_right_by_s', lambda c: '%s == (%s)spec_rotr((u64)%s, s, %d)' % (c['R'], U(tag), c['x'], n))], **rkw)
+        # fill: FirstBit is a bit position (0 <= first < width), the range must end inside the value
+        fdom = [('range_within_width', lambda c: '(s32)first >= 0 && (s32)first < %d && (s32)count >= 0 && (s32)count <= %d && (s32)first + (s32)count <= %d' % (n, n, n))]
+        one = lambda c: '%s == (%s)((u64)%s | spec_ones(first, count))' % (c['R'], U(tag), c['x'])
+        zero = lambda c: '%s == (%s)((u64)%s & ~spec_ones(first, count))' % (c['R'], U(tag), c['x'])
+        if n < 64:
+            e_one, e_zero = [('range_set_rest_kept', one)], [('range_cleared_rest_kept', zero)]
+        else:
+            # stated in two halves so that a failure in the lower half (no shift >= 32 on the int mask, hence reproducible)
+            # is reported with its own counterexample
+            e_one = [('range_set_rest_kept_first_below_32', lambda c: '(s32)first >= 32 || ' + one(c)),
+                     ('range_set_rest_kept_first_from_32', lambda c: '(s32)first < 32 || ' + one(c))]
+            e_zero = [('range_cleared_rest_kept_first_below_32', lambda c: '(s32)first >= 32 || ' + zero(c)),
+                      ('range_cleared_rest_kept_first_from_32', lambda c: '(s32)first < 32 || ' + zero(c))]
+        gen(d_bf, 'bitfieldFillOne', F_BF, tag, L, [('T', 'x'), ('I', 'first'), ('I', 'count')], 'T', fdom, e_one)
+        gen(d_bf, 'bitfieldFillZero', F_BF, tag, L, [('T', 'x'), ('I', 'first'), ('I', 'count')], 'T', fdom, e_zero)
 
 # bitfieldInterleave / bitfieldDeinterleave: the width overloads that exist
 OPN = 'xyzw'
@@ -308,29 +303,31 @@ for tin, tout in (('u8', 'u16'), ('u16', 'u32'), ('u32', 'u64')):
                ensures=[('deinterleave_inverts_interleave', 'out[0] == x && out[1] == y')])
 
 # ------------------------------------------------------------------------------------------------
-# gtx_integer: 32-bit int / unsigned int only.  "Exact mathematical value", result representable.
-YMAX = 8
+# gtx_integer: int / unsigned int only.  "Exact mathematical value", result representable.  The loops of pow and sqrt are
+# value-bounded: each function has a small-bound contract in the per-change tier and a larger one in the thorough tier
+# (two shims of the same call, because a contract is keyed by its shim).
 XI = dict(build=B[d_gx.name])
-d_gx.shim('glm_pow_i32', 'int32_t', [('int32_t', 'x'), ('uint8_t', 'y')], 'return glm::pow(x, static_cast<glm::uint>(y));')
-d_gx.shim('glm_pow_u32', 'uint32_t', [('uint32_t', 'x'), ('uint8_t', 'y')], 'return glm::pow(x, static_cast<glm::uint>(y));')
-d_gx.shim('glm_sqrt_i32', 'int32_t', [('int32_t', 'x')], 'return glm::sqrt(x);')
-d_gx.shim('glm_sqrt_u32', 'uint32_t', [('uint32_t', 'x')], 'return glm::sqrt(x);')
+for sfx_, ymax, tier_ in (('_y3', 3, 'quick'), ('', 8, 'thorough')):
+    d_gx.shim('glm_pow_i32' + sfx_, 'int32_t', [('int32_t', 'x'), ('uint8_t', 'y')], 'return glm::pow(x, static_cast<glm::uint>(y));')
+    d_gx.shim('glm_pow_u32' + sfx_, 'uint32_t', [('uint32_t', 'x'), ('uint8_t', 'y')], 'return glm::pow(x, static_cast<glm::uint>(y));')
+    P.contract('glm_pow_i32' + sfx_, 'glm::pow(int, uint)  ' + F_XI, unwind=ymax + 2, bounded='y <= %d' % ymax, backends=('z3', 'cvc5', 'sat'), timeout=300, tier=tier_,
+               requires=[('exponent_bound', 'y <= %d' % ymax), ('result_representable', 'spec_ipow_s32((s64)(s32)x, y, %d) != SPEC_IPOW_NOFIT' % ymax)],
+               ensures=[('x_to_the_y_exact', '(s64)(s32)RESULT == spec_ipow_s32((s64)(s32)x, y, %d)' % ymax)], **XI)
+    P.contract('glm_pow_u32' + sfx_, 'glm::pow(uint, uint)  ' + F_XI, unwind=ymax + 2, bounded='y <= %d' % ymax, backends=('z3', 'cvc5', 'sat'), timeout=300, tier=tier_,
+               requires=[('exponent_bound', 'y <= %d' % ymax), ('result_representable', 'spec_upow_u32((u64)x, y, %d) != SPEC_UPOW_NOFIT' % ymax)],
+               ensures=[('x_to_the_y_exact', '(u64)RESULT == spec_upow_u32((u64)x, y, %d)' % ymax)], **XI)
+for sfx_, xmax, unw, tier_ in (('_x255', 255, 12, 'quick'), ('', 65535, 20, 'thorough')):
+    d_gx.shim('glm_sqrt_i32' + sfx_, 'int32_t', [('int32_t', 'x')], 'return glm::sqrt(x);')
+    d_gx.shim('glm_sqrt_u32' + sfx_, 'uint32_t', [('uint32_t', 'x')], 'return glm::sqrt(x);')
+    P.contract('glm_sqrt_i32' + sfx_, 'glm::sqrt(int)  ' + F_XI, unwind=unw, bounded='x <= %d' % xmax, backends=('sat', 'z3'), timeout=600, tier=tier_,
+               requires=[('x_nonnegative_and_bounded', '(s32)x >= 0 && x <= %d' % xmax)],
+               ensures=[('floor_sqrt_exact', '(s32)RESULT >= 0 && spec_is_floor_sqrt((u64)RESULT, (u64)x)')], **XI)
+    P.contract('glm_sqrt_u32' + sfx_, 'glm::sqrt(uint)  ' + F_XI, unwind=unw, bounded='x <= %d' % xmax, backends=('sat', 'z3'), timeout=600, tier=tier_,
+               requires=[('x_bounded', 'x <= %d' % xmax)],
+               ensures=[('floor_sqrt_exact', 'spec_is_floor_sqrt((u64)RESULT, (u64)x)')], **XI)
 d_gx.shim('glm_mod_i32', 'int32_t', [('int32_t', 'x'), ('int32_t', 'y')], 'return glm::mod(x, y);')
 d_gx.shim('glm_mod_u32', 'uint32_t', [('uint32_t', 'x'), ('uint32_t', 'y')], 'return glm::mod(x, y);')
 d_gx.shim('glm_nlz_u32', 'uint32_t', [('uint32_t', 'x')], 'return glm::nlz(x);')
-P.contract('glm_pow_i32', 'glm::pow(int, uint)  ' + F_XI, unwind=YMAX + 2, bounded='y <= %d' % YMAX, backends=('z3', 'cvc5', 'sat'), timeout=120,
-           requires=[('exponent_bound', 'y <= %d' % YMAX), ('result_representable', 'spec_ipow_s32((s64)(s32)x, y, %d) != SPEC_IPOW_NOFIT' % YMAX)],
-           ensures=[('x_to_the_y_exact', '(s64)(s32)RESULT == spec_ipow_s32((s64)(s32)x, y, %d)' % YMAX)], **XI)
-P.contract('glm_pow_u32', 'glm::pow(uint, uint)  ' + F_XI, unwind=YMAX + 2, bounded='y <= %d' % YMAX, backends=('z3', 'cvc5', 'sat'), timeout=120,
-           requires=[('exponent_bound', 'y <= %d' % YMAX), ('result_representable', 'spec_upow_u32((u64)x, y, %d) != SPEC_UPOW_NOFIT' % YMAX)],
-           ensures=[('x_to_the_y_exact', '(u64)RESULT == spec_upow_u32((u64)x, y, %d)' % YMAX)], **XI)
-SQ = 0xffff
-P.contract('glm_sqrt_i32', 'glm::sqrt(int)  ' + F_XI, unwind=20, bounded='x <= %d' % SQ, backends=('sat', 'z3'), timeout=300,
-           requires=[('x_nonnegative_and_bounded', '(s32)x >= 0 && x <= %d' % SQ)],
-           ensures=[('floor_sqrt_exact', '(s32)RESULT >= 0 && spec_is_floor_sqrt((u64)RESULT, (u64)x)')], **XI)
-P.contract('glm_sqrt_u32', 'glm::sqrt(uint)  ' + F_XI, unwind=20, bounded='x <= %d' % SQ, backends=('sat', 'z3'), timeout=300,
-           requires=[('x_bounded', 'x <= %d' % SQ)],
-           ensures=[('floor_sqrt_exact', 'spec_is_floor_sqrt((u64)RESULT, (u64)x)')], **XI)
 P.contract('glm_mod_i32', 'glm::mod(int, int)  ' + F_XI, backends=('z3', 'cvc5'), timeout=120, tier='thorough',
            requires=[('divisor_nonzero', 'y != 0'), ('remainder_defined_in_cxx', '!(x == 0x80000000u && y == 0xffffffffu)')],
            ensures=[('x_minus_y_floor_x_over_y', 'spec_is_floor_mod((s64)(s32)RESULT, (s64)(s32)x, (s64)(s32)y)')], **XI)
@@ -344,7 +341,7 @@ P.level_text = ('each instantiation (8..64 bit, signed/unsigned, scalar and vec4
                 'extracts from /repo, proved for every argument value in the documented domain (symbolic arguments = all 2^N inputs; the '
                 '%-based multiple functions completely for the 8- and 16-bit types = all (x, m) pairs); loops closed by width-bounded '
                 'unwinding with unwinding assertions; gtx pow/sqrt/factorial are bounded by a REQUIRES on the argument and reported as bounded')
-P.level_note = ('trusted: clang-14 lowering, ll2c (T-checked), CBMC bit-vector and float semantics, spec_pow2.h written from the property statement '
+P.level_note = ('trusted: clang-14 lowering, ll2c (T-checked), CBMC bit-vector semantics, spec_pow2.h written from the property statement '
                 'and the .hpp doc comments (self-tested against brute force at 8 bit)')
 P.technique = 'CBMC code contracts (DFCC enforce) on mechanically extracted C; SAT/SMT bit-precise'
 P.design_ref = 'DESIGN.md section 6 C18'
